@@ -291,3 +291,4 @@ MANIFEST = {
     'note': 'Trusted: the grammar of preference lists as documented in DESIGN.md section 1. '
             'Lists longer than 60 are not tried (both state machines are length-independent).',
 }
+MANIFEST['text'] += (' ' + "Whole instances are also assembled by the generators' own create_instance (all ordered pairs of tie vectors on consecutive rows of both sides for n <= 4/5, hr and spa) and read back.")
